@@ -393,8 +393,10 @@ func (obj *Array) LoadForm() Object {
 		List{quoteSymbol, dims},
 		Symbol(":element-type"),
 		et,
-		Symbol(":initial-contents"),
-		List{quoteSymbol, obj.AsList()},
+	}
+	// An array without elements has no contents to provide.
+	if contents := obj.AsList(); 0 < len(contents) {
+		form = append(form, Symbol(":initial-contents"), List{quoteSymbol, contents})
 	}
 	if obj.adjustable {
 		form = append(form, Symbol(":adjustable"), True)
